@@ -19,6 +19,7 @@ pub fn run(ctx: &Ctx) {
         if !ctx.want(prog) {
             continue;
         }
+        let _g = op_begin("model-generated-program", prog);
         let it = Interp::new(ctx.seed, prog, bias());
         let (out, world, _model) = it.run();
         drop(world);
@@ -36,6 +37,9 @@ pub fn run(ctx: &Ctx) {
                 json!({"program": prog, "step": m.step, "op": m.op, "model_expected": m.expected, "observed": m.got, "trace_tail": tail}),
                 ctx.replay(prog),
             );
+        }
+        if ctx.rep.nviol.load(std::sync::atomic::Ordering::Relaxed) >= 5 {
+            break;
         }
         if i % 50 == 0 {
             let head: Vec<&String> = out.trace.iter().take(25).collect();
